@@ -119,12 +119,16 @@ def get_capacity(tag_memory_size, offset, skip_bytes):
     # are within the usable memory range, and adjusted by the required
     # number of TLV length bytes (1 or 3) and the TLV tag byte.
     log.debug("subtract {0} skip bytes from capacity".format(len(skip_bytes)))
-    capacity = len(set(range(offset, tag_memory_size)) - skip_bytes)
     # To store more than 254 byte ndef we must use three length bytes,
     # otherwise it's only one. But only if the capacity is more than
     # 256 the three length byte format will provide a higher value.
-    capacity -= 2 if capacity <= 256 else min(4, capacity - 254)
-    return max(capacity, 0)
+    # The TLV tag and length bytes are read and written right at
+    # offset, only the value bytes jump over skip bytes.
+    capacity = len(set(range(offset + 2, tag_memory_size)) - skip_bytes)
+    if capacity > 254:
+        capacity = len(set(range(offset + 4, tag_memory_size)) - skip_bytes)
+        capacity = max(capacity, 254)
+    return capacity
 
 
 class Type1Tag(Tag):
